@@ -251,6 +251,65 @@ def runLoop (kernel : String) (a : List String) : Option Out :=
       | none => pure (.ok [] "fuel;")
       | some (.error e) => pure (.err e)
       | some (.ok vs) => pure (.ok (vs.map v3l).flatten (toString vs.length ++ ";"))
+  | "basisDers", [knots, order, span, u, n] => do
+      let knots ← parseRats knots; let order ← order.toNat?; let span ← Proto.parseInt span; let u ← parseRat u; let n ← n.toNat?
+      match basisFuncsDerivatives knots order span u n with
+      | .error e => pure (.err e)
+      | .ok rows => pure (.ok rows.flatten (toString rows.length ++ ";"))
+  | "evalDerivativeFull", [knots, weights, order, cps, u, n] => do
+      let knots ← parseRats knots; let weights ← parseRats weights; let order ← order.toNat?
+      let cps ← parseList parseV3 cps; let u ← parseRat u; let n ← n.toNat?
+      match evalDerivative EzdxfVerif.TwinLoops.binomPy (basisFuncsDerivatives knots order) knots weights order cps u n with
+      | none => pure (.ok [] "fuel;")
+      | some (.error e) => pure (.err e)
+      | some (.ok vs) => pure (.ok (vs.map v3l).flatten (toString vs.length ++ ";"))
+  | "arcParameters", [startA, endA, segments, pi, tanv, table] => do
+      -- ceil is exact; tan / cos / sin are the values the implementation's libm returned (tan: one value, cos/sin: table keyed by the exact angle)
+      let startA ← parseRat startA; let endA ← parseRat endA; let segments ← parseRat segments; let pi ← parseRat pi; let tanv ← parseRat tanv
+      let tab ← parseList (fun e => match e.splitOn ":" with
+        | [a, c, s] => do let a ← parseRat a; let c ← parseRat c; let s ← parseRat s; pure (a, c, s)
+        | _ => none) table
+      let look := fun (a : Rat) => (tab.find? (fun e => e.1 = a)).map (·.2)
+      let cosF := fun a => ((look a).map (·.1)).getD 0
+      let sinF := fun a => ((look a).map (·.2)).getD 0
+      let ceilF := fun (q : Rat) => ((-((-q.num) / (q.den : Int)) : Int) : Rat)
+      match arcParameters ceilF (fun _ => tanv) cosF sinF pi startA endA segments with
+      | .error e => pure (.err e)
+      | .ok l => pure (.ok (l.map fun q => v3l q.1 ++ v3l q.2.1 ++ v3l q.2.2.1 ++ v3l q.2.2.2).flatten (toString l.length ++ ";"))
+  | "pointInPolygon", [pt, poly, tol] => do
+      let pt ← parseV2 pt; let poly ← parseList parseV2 poly; let tol ← parseRat tol
+      match pointInPolygon pt poly tol with
+      | .ok r => pure (.ok [] (showInt r))
+      | .error e => pure (.err e)
+  | "approximate4", [a, b, c, d, n] => do
+      let a ← parseV3 a; let b ← parseV3 b; let c ← parseV3 c; let d ← parseV3 d; let n ← parseRat n
+      match approximate4 a b c d n with
+      | .ok l => pure (.ok (l.map v3l).flatten (toString l.length ++ ";"))
+      | .error e => pure (.err e)
+  | "approximate3", [a, b, c, n] => do
+      let a ← parseV3 a; let b ← parseV3 b; let c ← parseV3 c; let n ← parseRat n
+      match approximate3 a b c n with
+      | .ok l => pure (.ok (l.map v3l).flatten (toString l.length ++ ";"))
+      | .error e => pure (.err e)
+  | "approxLength4", [a, b, c, d, n] => do
+      let a ← parseV3 a; let b ← parseV3 b; let c ← parseV3 c; let d ← parseV3 d; let n ← parseRat n
+      match approximatedLength4 sqrtA a b c d n with
+      | .ok l => pure (.ok [l])
+      | .error e => pure (.err e)
+  | "spanDeg", [st, en, sm, em] => do
+      let st ← parseRat st; let en ← parseRat en; let sm ← parseRat sm; let em ← parseRat em
+      pure (.ok [spanDeg st en sm em])
+  | "spanRad", [st, en, sm, em, tau] => do
+      let st ← parseRat st; let en ← parseRat en; let sm ← parseRat sm; let em ← parseRat em; let tau ← parseRat tau
+      pure (.ok [spanRad st en sm em tau])
+  | "luSolve", [rows, b, m1, m2] => do
+      let A ← parseList parseRats rows; let b ← parseRats b; let m1 ← m1.toNat?; let m2 ← m2.toNat?
+      match luDecompose A m1 m2 with
+      | .error e => pure (.err e)
+      | .ok st =>
+        match svSolve b st.upper st.lower st.index m1 m2 with
+        | .error e => pure (.err e)
+        | .ok x => pure (.ok (st.upper.flatten ++ st.lower.flatten ++ x) (",".intercalate (st.index.map toString) ++ ";"))
   | "lineSegments", [dashes, segs] => do
       let dashes ← parseRats dashes; let segs ← parseList parseSeg segs
       pure (runSegments lineSegment lsLength_rad1 dashes segs (EzdxfVerif.TwinLoops.ltInit dashes) [] [])
